@@ -55,7 +55,11 @@ def universe(fd, lengths: dict, typed=True, rng=None):
                     items = [items[j] for j in rng.permutation(n)]  # ... possibly not ascending
             else:
                 items = [pool[j] for j in rng.permutation(len(pool))[:n]]
-        out[l] = fd.Dimension(letter=l, name=names[l], items=list(items), **kw)
+        own = list(items)
+        out[l] = fd.Dimension(letter=l, name=names[l], items=own, **kw)
+        if rng is not None and rng.random() < 0.3:
+            own.reverse()  # the user's own list is edited later on: the dimension keeps the items it was given
+            own.append(own[0])
     return out
 
 
@@ -251,7 +255,23 @@ class Fresh:
         # the subclasses inherit every operation: cycle through them
         cls = (fd.FlodymArray, fd.Parameter, fd.StockArray, fd.FlodymArray)[Fresh._count[0] % 4]
         with hub.pause():
-            return cls(dims=arr.dims, values=arr.values.copy(order="K"), name=arr.name)
+            new = cls(dims=arr.dims, values=arr.values.copy(order="K"), name=arr.name)
+            # ... and sometimes an object that went through a copy or a serialisation before it is used
+            how = Fresh._count[0] % 13
+            try:
+                if how == 5:
+                    import pickle
+
+                    new = pickle.loads(pickle.dumps(new))
+                elif how == 8:
+                    import copy
+
+                    new = copy.deepcopy(new)
+                elif how == 11:
+                    new = new.model_copy(deep=True)
+            except Exception:
+                pass
+            return new
 
     def __getattr__(self, name):
         return getattr(self.new(), name)
